@@ -67,8 +67,12 @@ pub enum AtomKind {
     NestedDesc,
     /// nested filter inside a multi-selector bracket: `@[99, ?@.r]`
     NestedUnion,
+    /// comparison of two singular queries, `@.p == @.o`: true also when both select nothing
+    CmpTwoQueries,
+    /// existence through a negative index, `@.l[-1]`
+    ExistsNegIndex,
 }
-pub const KINDS: [AtomKind; 10] = [
+pub const KINDS: [AtomKind; 12] = [
     AtomKind::Exists,
     AtomKind::CmpEq,
     AtomKind::Match,
@@ -79,6 +83,8 @@ pub const KINDS: [AtomKind; 10] = [
     AtomKind::CmpOrd,
     AtomKind::NestedDesc,
     AtomKind::NestedUnion,
+    AtomKind::CmpTwoQueries,
+    AtomKind::ExistsNegIndex,
 ];
 
 fn nm(s: &str) -> StrLit {
@@ -164,6 +170,21 @@ fn atom_expr(kind: AtomKind, i: usize) -> (Expr, bool) {
                     sels: vec![Sel::Index(99), Sel::Filter(Expr::Test(false, Box::new(TestE::Q(rel(vec![nseg(&r)])))))],
                     dot: false,
                 }]))),
+            ),
+            true,
+        ),
+        AtomKind::CmpTwoQueries => (
+            Expr::Cmp(
+                Box::new(Cmpable::Sing(Sing { abs: false, steps: vec![SingStep::Name(nm(&p), true)] })),
+                if i % 2 == 0 { Op::Eq } else { Op::Le },
+                Box::new(Cmpable::Sing(Sing { abs: false, steps: vec![SingStep::Name(nm(&format!("o{}", i)), true)] })),
+            ),
+            false,
+        ),
+        AtomKind::ExistsNegIndex => (
+            Expr::Test(
+                false,
+                Box::new(TestE::Q(rel(vec![nseg(&format!("l{}", i)), Seg { desc: false, sels: vec![Sel::Index(if i % 2 == 0 { -1 } else { -2 })], dot: false }]))),
             ),
             true,
         ),
@@ -284,6 +305,52 @@ fn atom_members(src: &mut Src, kind: AtomKind, i: usize, truth: bool, out: &mut 
                 out.push((n, J::Obj(vec![])));
             }
         }
+        AtomKind::CmpTwoQueries => {
+            let o = format!("o{}", i);
+            if truth {
+                match src.below(3) {
+                    // both select nothing
+                    0 => {}
+                    1 => {
+                        let v = src.pick(&[J::Int(4), J::Str("s".into()), J::Null, J::Arr(vec![J::Int(1)])]).clone();
+                        out.push((p, v.clone()));
+                        out.push((o, v));
+                    }
+                    _ => {
+                        out.push((p, J::Int(4)));
+                        out.push((o, J::Float(4.0)));
+                    }
+                }
+            } else {
+                match src.below(4) {
+                    0 => out.push((p, J::Int(4))),
+                    1 => out.push((o, J::Null)),
+                    2 => {
+                        out.push((p, J::Int(5)));
+                        out.push((o, J::Int(4)));
+                    }
+                    _ => {
+                        out.push((p, J::Str("4".into())));
+                        out.push((o, J::Int(4)));
+                    }
+                }
+            }
+        }
+        AtomKind::ExistsNegIndex => {
+            let l = format!("l{}", i);
+            let need = if i % 2 == 0 { 1 } else { 2 };
+            if truth {
+                let n = need + src.below(3);
+                out.push((l, J::Arr((0..n).map(|_| src.pick(&falsy).clone()).collect())));
+            } else {
+                match src.below(4) {
+                    0 => {}
+                    1 => out.push((l, J::Arr((0..need - 1).map(|_| J::Int(1)).collect()))),
+                    2 => out.push((l, J::Obj(vec![("-1".into(), J::Int(1))]))),
+                    _ => out.push((l, J::Str("ab".into()))),
+                }
+            }
+        }
         AtomKind::CountPos => {
             let c = format!("c{}", i);
             if truth {
@@ -388,10 +455,23 @@ fn check_formula(f: &F, k: usize, kinds: &[AtomKind], src: &mut Src, as_object: 
         m.push(("id".to_string(), J::Int(val as i64)));
         children.push((val, J::Obj(m)));
     }
-    let holder = if as_object {
-        J::Obj(children.iter().map(|(v, c)| (format!("v{:02}", v), c.clone())).collect())
+    // a few children that are not objects at all (numbers, strings, null, arrays): every `@.x` selects
+    // nothing for them; what the filter must do with them is taken from the reference evaluator
+    let extras: Vec<J> = if src.chance(1, 2) {
+        (0..1 + src.below(3)).map(|_| src.pick(&[J::Int(3), J::Str("x".into()), J::Null, J::Bool(false), J::Arr(vec![]), J::Arr(vec![J::Int(1), J::Int(2)]), J::Float(0.5)]).clone()).collect()
     } else {
-        J::Arr(children.iter().map(|(_, c)| c.clone()).collect())
+        vec![]
+    };
+    let holder = if as_object {
+        let mut m: Vec<(String, J)> = children.iter().map(|(v, c)| (format!("v{:02}", v), c.clone())).collect();
+        for (i, x) in extras.iter().enumerate() {
+            m.push((format!("x{:02}", i), x.clone()));
+        }
+        J::Obj(m)
+    } else {
+        let mut a: Vec<J> = children.iter().map(|(_, c)| c.clone()).collect();
+        a.extend(extras.iter().cloned());
+        J::Arr(a)
     };
     root.push(("h".to_string(), holder));
     let doc = J::Obj(root).sorted();
@@ -402,13 +482,16 @@ fn check_formula(f: &F, k: usize, kinds: &[AtomKind], src: &mut Src, as_object: 
     // expected: satisfying valuations in original order
     let exp_ids: Vec<i64> = children.iter().filter(|(v, _)| f.eval(*v)).map(|(v, _)| *v as i64).collect();
     // harness self-consistency: the reference evaluator must agree with plain Boolean evaluation
-    let via_oracle: Vec<i64> = oracle::eval(&q, &doc, &Quirks::strict())
+    let oracle_nodes = oracle::eval(&q, &doc, &Quirks::strict());
+    let via_oracle: Vec<i64> = oracle_nodes
         .iter()
-        .map(|n| match n.v.get_loc(&[Step::Key("id".into())]) {
-            Some(J::Int(i)) => *i,
-            _ => -1,
+        .filter_map(|n| match n.v.get_loc(&[Step::Key("id".into())]) {
+            Some(J::Int(i)) => Some(*i),
+            _ => None,
         })
         .collect();
+    // kept children that are not valuation objects (the primitive extras), by location
+    let exp_extra_locs: Vec<Loc> = oracle_nodes.iter().filter(|n| !matches!(n.v.get_loc(&[Step::Key("id".into())]), Some(J::Int(_)))).map(|n| n.loc()).collect();
     if via_oracle != exp_ids {
         return Err(Failure::new(
             "harness inconsistency: reference evaluator and Boolean evaluation of the formula disagree",
@@ -435,7 +518,16 @@ fn check_formula(f: &F, k: usize, kinds: &[AtomKind], src: &mut Src, as_object: 
         Err(LibErr::Err(e)) => return Err(Failure::new(format!("valid filter rejected: {}", e), json!({"query": text, "doc": doc.to_value()}))),
         Err(LibErr::Panic(p)) => return Err(Failure::new(format!("panic: {}", p), json!({"query": text, "doc": doc.to_value()}))),
     };
-    let got_ids: Vec<i64> = got.iter().map(|n| n.val.get("id").and_then(|x| x.as_i64()).unwrap_or(-1)).collect();
+    let got_ids: Vec<i64> = got.iter().filter_map(|n| n.val.get("id").and_then(|x| x.as_i64())).collect();
+    let got_extra_locs: Vec<Loc> = got.iter().filter(|n| n.val.get("id").and_then(|x| x.as_i64()).is_none()).filter_map(|n| n.loc.clone()).collect();
+    if got_extra_locs != exp_extra_locs {
+        return Err(Failure::new(
+            "the filter treats children that are not objects (numbers, strings, null, arrays) wrongly",
+            json!({"query": text, "doc": doc.to_value(), "formula": f.text(),
+                   "expected_kept_primitives": exp_extra_locs.iter().map(|l| normalized_path(l)).collect::<Vec<_>>(),
+                   "library_kept_primitives": got_extra_locs.iter().map(|l| normalized_path(l)).collect::<Vec<_>>()}),
+        ));
+    }
     // `$` is the root of the document being queried *now*: the query parsed once is evaluated on this
     // document and then on a variant with every root flag flipped, stored at the same address
     if kinds[..k].iter().any(|x| *x == AtomKind::RootFlag) && got_ids == exp_ids {
@@ -459,7 +551,7 @@ fn check_formula(f: &F, k: usize, kinds: &[AtomKind], src: &mut Src, as_object: 
             // the children are the same objects; a child built for valuation v now sees the valuation v ^ flip_mask
             let exp2: Vec<i64> = children.iter().filter(|(v, _)| f.eval(*v ^ flip_mask)).map(|(v, _)| *v as i64).collect();
             let mut slot: Value = v.clone();
-            let ids = |r: Vec<libx::LibNode>| -> Vec<i64> { r.iter().map(|n| n.val.get("id").and_then(|x| x.as_i64()).unwrap_or(-1)).collect() };
+            let ids = |r: Vec<libx::LibNode>| -> Vec<i64> { r.iter().filter_map(|n| n.val.get("id").and_then(|x| x.as_i64())).collect() };
             let empty = std::collections::HashMap::new();
             obs.eval(2);
             let first = libx::process(&slot, &empty, &ast).map(ids);
